@@ -558,6 +558,39 @@ def _structural(rec):
 
     for kind in ('fresh-then-nan', 'panel-then-nan', 'used-then-nan'):
         _expect_refusal(rec, f'nan-introduced-after-creation:{kind}', 'Database+BIOGEME', lambda kind=kind: nan_history(kind))
+    # a declaration that is refused leaves the Database usable as it was: after panel() has refused a table whose
+    # individuals' rows are not consecutive, a valid cross-sectional specification on the same Database is accepted and
+    # gives the plain row-wise values
+    from biogeme.exceptions import BiogemeError
+    for ids in ([1, 2, 1, 3, 3], [2, 1, 2, 1, 2], [5, 5, 4, 5, 4]):
+        for entry in ('biogeme_expr', 'biogeme_dict', 'biogeme_simulate', 'get_value_c'):
+            rows = [dict(r, id=float(i)) for r, i in zip(G.ROWS, ids)]
+            from vf.engine import make_db
+            d = make_db(rows, G.COLUMNS + ['id'])
+            case = dict(part='structural')
+            try:
+                d.panel('id')
+                rec.violation('C12|faulty-specification-accepted|structural:panel-with-scattered-individuals', f'panel() accepted ids {ids}', case)
+                continue
+            except BiogemeError:
+                pass
+            term = ('*', ('beta', 'b_z'), ('var', 'x2'))
+            full = dict(G.PARAMS)
+            refs = [R.evaluate(term, r, full) for r in rows]
+            want = refs if entry in ROW_ENTRIES else [sum(refs)]
+            try:
+                out = enter(entry, term, db=d)
+            except Exception as e:
+                rec.case(('refused-panel', tuple(ids), entry), ('rejected', type(e).__name__), outcome='rejected')
+                rec.violation(f'C12|valid-specification-rejected-{type(e).__name__}|history=[panel()-refused, cross-sectional-model]:entry={entry}',
+                              f'ids {ids}: panel() raised BiogemeError (rows of an individual not consecutive); afterwards the valid formula '
+                              f'b_z * x2 on the same Database was rejected by {entry}: {type(e).__name__}: {str(e)[:160]}', case, observed=repr(e)[:200])
+                continue
+            ok = len(out) == len(want) and all(R.close(a, b_, rel=1e-9) for a, b_ in zip(out, want))
+            rec.case(('refused-panel', tuple(ids), entry), (ids, entry, [round(v, 9) for v in out]), outcome=('accepted', ok))
+            if not ok:
+                rec.violation(f'C12|valid-specification-wrong-value|history=[panel()-refused, cross-sectional-model]:entry={entry}',
+                              f'ids {ids}: after the refused panel(), b_z * x2 through {entry} gave {out}, expected {want}', case)
     # valid counterparts are accepted
     valid = {
         'logit': lambda e: via(e, models.loglogit(V(), av(), ex.Variable('choice'))),
